@@ -50,17 +50,41 @@ class ParserModel:
         ty = self.nxt.local_ty(self.nxt.term(self.read_calls[0])["dest"]["l"])
         mm = re.match(r"^std::result::Result<request::Request, ([\w:]+)>$", ty)
         self.err_adt = mm.group(1) if mm else None
-        # the last-request flag: the bool field of the connection that is assigned outside its construction
+        # the last-request gate: the field of the connection (a bool or a field-less enum of the crate) that is assigned outside its
+        # construction.  Its value at construction is the `open` state, the values stored later are the `closed` states.
         cc = facts.adt(CC)
-        bools = [x["name"] for x in cc["variants"][0]["fields"] if x["ty"] == "bool"]
+        def gate_ty(ty):
+            if ty == "bool":
+                return True
+            a = facts.adts.get(ty)
+            return a is not None and a.get("kind") == "Enum" and all(not v["fields"] for v in a["variants"])
         flags = []
-        for b in bools:
-            ws = [w for w in facts.field_writes(CC, b) if w[2] != "construct"]
-            if ws:
-                flags.append(b)
+        for x in cc["variants"][0]["fields"]:
+            if gate_ty(x["ty"]) and [w for w in facts.field_writes(CC, x["name"]) if w[2] not in ("construct", "drop")]:
+                flags.append((x["name"], x["ty"]))
         if len(flags) != 1:
             raise CheckerError("parser rules: last-request flag of %s not found (%s)" % (CC, flags))
-        self.flag = flags[0]
+        self.flag, self.flag_ty = flags[0]
+        self.flag_open, self.flag_closed, self.flag_writes = set(), set(), []
+        for g, bb, kind, x in facts.field_writes(CC, self.flag):
+            if kind == "construct":
+                r = x["rhs"]
+                v = static_value(g, r["ops"][r["fields"].index(self.flag)])
+                self.flag_open.add(v)
+            elif kind == "assign":
+                v = static_value(g, x["rhs"]["op"]) if x["rhs"]["rv"] == "use" else static_rvalue(g, x["rhs"])
+                self.flag_closed.add(v)
+            elif kind == "drop":
+                continue
+            else:
+                v = None
+                self.flag_closed.add(None)
+            self.flag_writes.append((g, bb, kind, v))
+
+    def flag_term(self, nv):
+        if nv[0] == "b":
+            return ("const", nv[1], "true" if nv[1] else "false", None)
+        return ("agg", self.flag_ty, nv[1], {})
 
     def line_calls(self):
         """blocks of the head reader at which its line reader (a function of the parser's own file returning io::Result<line>) is entered"""
@@ -98,12 +122,48 @@ class ParserModel:
         return out
 
     def flag_set(self, p):
+        """None: the gate was not touched on this path; True: it now holds one of the closed values; False: it holds the open value again"""
         v = p.state.read_key((1, "*", "." + self.flag))
-        if v[0] == "const" and isinstance(v[1], bool):
-            return v[1]
         if v[0] == "init":
             return None     # untouched
+        nv = norm_value(absint.deep(p.state, v))
+        if nv is not None and nv in self.flag_closed and nv not in self.flag_open:
+            return True
+        if nv is not None and nv in self.flag_open:
+            return False
         return "?"
+
+
+def norm_value(v):
+    """('b', bool) / ('v', variant name) for a constant bool / a field-less enum value, else None"""
+    c = absint.const_of(v)
+    if isinstance(c, bool):
+        return ("b", c)
+    if v[0] in ("agg", "variant") and (len(v) < 4 or not v[3]):
+        return ("v", v[2])
+    return None
+
+
+def static_rvalue(f, r):
+    if r["rv"] == "agg" and r.get("agg") == "adt" and not r.get("ops"):
+        return ("v", r["variant"])
+    if r["rv"] == "use":
+        return static_value(f, r["op"])
+    return None
+
+
+def static_value(f, op, depth=0):
+    """value of an operand that is a constant or a temporary assigned exactly once from a constant / a field-less enum constructor"""
+    c = op_const(op)
+    if isinstance(c, bool):
+        return ("b", c)
+    l = op_local(op)
+    if l is None or depth > 4:
+        return None
+    defs = [s for bb, i, s in f.assigns() if s["lhs"]["l"] == l and not s["lhs"]["p"]]
+    if len(defs) != 1:
+        return None
+    return static_rvalue(f, defs[0]["rhs"]) if defs[0]["rhs"]["rv"] != "use" else static_value(f, defs[0]["rhs"]["op"], depth + 1)
 
 
 def pmodel(facts):
